@@ -391,7 +391,8 @@ def run(repo, rep, tier):
     # put precedes everything else that could fail after it in the try body
     # ---- R5 ---------------------------------------------------------------
     r5.functions.update([deliver.fq, run_cb.fq, addcb.fq])
-    loops = [n for n in deliver.body if isinstance(n, ast.For)]
+    deliver_f = Flat(deliver, aliases=True)
+    loops = [n for n in deliver_f.body if isinstance(n, ast.For)]
     ok = len(loops) == 1 and norm(loops[0].iter) == 'self._callbacks'
     r5.sites += 1
     r5.ob(ok, 'registration-order', {'iterates': norm(loops[0].iter)
